@@ -21,22 +21,21 @@ theorem noPanic_of_cases {o : Outcome Unit} (h : o = .ok () ∨ o = .err eWrongS
 theorem noPanic_comp_validate (sc : SwComp) : NoPanic sc.validate := by
   rcases comp_validate_cases sc with h | ⟨m, h⟩ <;> rw [h] <;> intro s hh <;> cases hh
 
-theorem noPanic_valuesOf (l : List (Option SwComp)) (hn : ∀ e ∈ l, e ≠ none) : NoPanic (valuesOf l) := by
+theorem noPanic_valuesOf (l : List (Option SwComp)) : NoPanic (valuesOf l) := by
   induction l with
   | nil => exact noPanic_ok _
   | cons x xs ih =>
     cases x with
-    | none => exact absurd rfl (hn none (by simp))
+    | none => exact noPanic_err _
     | some sc =>
       simp only [valuesOf]
-      have ih' := ih (fun e he => hn e (by simp [he]))
+      have ih' := ih
       rcases comp_validate_cases sc with h | ⟨m, h⟩ <;> rw [h]
       · exact noPanic_bind _ _ ih' (fun _ => noPanic_ok _)
       · exact noPanic_err m
 
-theorem noPanic_get (g : Getter) (c : Claims) (hn : ∀ e ∈ c.sw.elems, e ≠ none) : NoPanic (Model.get g c) := by
+theorem noPanic_get (g : Getter) (c : Claims) : NoPanic (Model.get g c) := by
   obtain ⟨prof, canonical, profile, clientId, lifecycle, implId, bootSeed, certRef, sw, noSw, nonce, instId, vsi⟩ := c
-  simp only [] at hn
   cases g <;> simp only [Model.get]
   · unfold getProfile; simp only []
     cases prof <;> cases profile with
@@ -68,10 +67,10 @@ theorem noPanic_get (g : Getter) (c : Claims) (hn : ∀ e ∈ c.sw.elems, e ≠ 
       · cases noSw <;> first | exact noPanic_ok _ | exact noPanic_err _
       · cases noSw with
         | some n => exact noPanic_err _
-        | none => exact noPanic_bind _ _ (noPanic_valuesOf _ hn) (fun _ => noPanic_ok _)
+        | none => exact noPanic_bind _ _ (noPanic_valuesOf _) (fun _ => noPanic_ok _)
     · split
       · exact noPanic_err _
-      · exact noPanic_bind _ _ (noPanic_valuesOf _ hn) (fun _ => noPanic_ok _)
+      · exact noPanic_bind _ _ (noPanic_valuesOf _) (fun _ => noPanic_ok _)
   · unfold getNonce validateNonce
     cases nonce with
     | none => exact noPanic_err _
@@ -95,13 +94,13 @@ theorem noPanic_filterError {α} (o : Outcome α) (h : NoPanic o) : NoPanic (fil
   | err m => simp only [filterError]; split <;> first | exact noPanic_ok _ | exact noPanic_err _
   | panic s => exact absurd rfl (h s)
 
-theorem noPanic_validateWith (o : List Getter) (c : Claims) (hn : ∀ e ∈ c.sw.elems, e ≠ none) :
+theorem noPanic_validateWith (o : List Getter) (c : Claims) :
     NoPanic (validateWith o c) := by
   induction o with
   | nil => exact noPanic_ok _
   | cons g rest ih =>
     simp only [validateWith]
-    have := noPanic_filterError _ (noPanic_get g c hn)
+    have := noPanic_filterError _ (noPanic_get g c)
     cases h : filterError (Model.get g c) with
     | ok a => exact ih
     | err m => exact noPanic_err m
